@@ -121,7 +121,9 @@ def _score(q, cls, ans):
         t.remove_ind_(ix)
     ans["path"] = [list(map(int, s)) for s in t.get_path()]
     if cls == "rg":
-        return float(ans["flops"])
+        # since /repo 00c7e4b the random-greedy variant stores the tree's score under its own
+        # objective ('flops'), like the hyper variant; before it stored the scripted best_flops
+        return float(t.get_score("flops"))
     return float(t.get_score())
 
 
